@@ -52,7 +52,7 @@ class PathFacade:
     realpath = abspath
 
     def relpath(self, path, start=None):
-        return posixpath.relpath(self._w.abspath(path), self._w.abspath(start or self._w.CWD))
+        return posixpath.relpath(self._w.abspath(path), self._w.abspath(start or self._w.cwd))
 
     def exists(self, path):
         return self._w.exists(path)
@@ -97,7 +97,7 @@ class OsFacade:
         return self._w.urandom(n)
 
     def getcwd(self):
-        return self._w.CWD
+        return self._w.cwd
 
     def getenv(self, key, default=None):
         return self._w.env.get(key, default)
